@@ -1,8 +1,347 @@
+(* C15 - Column profiles report exact counts, extremes and frequencies.
+   Property theorems only; each is closed by [exact] of a lemma from Proofs/C15*.v and followed
+   by Print Assumptions.
+
+   Reading guide.  A column is a [list (option A)], [None] = null.  [profile_num scale ...] is
+   NumericProfiler ([with_order = true]: INTEGER, DOUBLE, DECIMAL) and DateProfiler ([false]: DATE,
+   TIMESTAMP as epoch seconds) over exact fixed-point numbers z / scale; [profile_text] is
+   VarcharProfiler over code point lists; [profile_bool], [profile_plain] (ARRAY / STRUCT) and
+   [profile_default] (untyped) are the profilers without extremes; [add] is ColumnProfile.__add__
+   (which is all TableProfile.__add__ does per column); [profile_frame] is
+   TableProfile.from_dataframe with its BATCH_SIZE batching.  [hash] (xxhash), [np_hist]
+   (numpy.histogram) and [hist_merge] (distogram merge) are arbitrary functions: every theorem
+   holds whatever they return, except C15_histogram_mass which names its hypothesis.
+   [quad p] = (count, missing, minimum, maximum) of p. *)
 From Coq Require Import List ZArith NArith Bool.
-From Orso Require Import Gen.C15_Profiler Model.C15 Proofs.C15.
+From Orso Require Import Gen.C15_Profiler Model.C15 Proofs.C15 Proofs.C15_Text Proofs.C15_Inst.
 Import ListNotations.
 Open Scope Z_scope.
 
-Theorem C15_placeholder : forall B (a b : list B), zlen (a ++ b) = zlen a + zlen b.
-Proof. exact @zlen_app. Qed.
-Print Assumptions C15_placeholder.
+(* count = number of rows, missing = number of nulls: every profiler, every column (all-null
+   and no-null included).  Untyped columns count None and NaN. *)
+Theorem C15_count_missing :
+  (forall E scale hash (np_hist : list Z -> list (E * Z)) wo c,
+      let p := profile_num scale hash np_hist wo c in
+      p_count p = zlen c /\ p_missing p = zlen (filter is_none c)) /\
+  (forall E hash c,
+      let p := @profile_text E hash c in
+      p_count p = zlen c /\ p_missing p = zlen (filter is_none c)) /\
+  (forall E c,
+      let p := @profile_bool E c in
+      p_count p = zlen c /\ p_missing p = zlen (filter is_none c)) /\
+  (forall V E B (c : list (option B)),
+      let p := @profile_plain V E B c in
+      p_count p = zlen c /\ p_missing p = zlen (filter is_none c)) /\
+  (forall V E c,
+      let p := @profile_default V E c in
+      p_count p = zlen c /\ p_missing p = zlen (filter ucell_missing c)).
+Proof. exact count_missing_all. Qed.
+Print Assumptions C15_count_missing.
+
+(* Numbers and instants: the minimum is the least non-null value, truncated toward zero
+   (Z.quot); there is none exactly when every cell is null. *)
+Theorem C15_minimum_is_true_extreme :
+  forall E scale hash (np_hist : list Z -> list (E * Z)) wo c,
+  match p_minimum (profile_num scale hash np_hist wo c) with
+  | None => forall o, In o c -> o = None
+  | Some z => exists m, In (Some m) c /\ (forall y, In (Some y) c -> m <= y) /\ z = Z.quot m scale
+  end.
+Proof. exact num_minimum. Qed.
+Print Assumptions C15_minimum_is_true_extreme.
+
+Theorem C15_maximum_is_true_extreme :
+  forall E scale hash (np_hist : list Z -> list (E * Z)) wo c,
+  match p_maximum (profile_num scale hash np_hist wo c) with
+  | None => forall o, In o c -> o = None
+  | Some z => exists m, In (Some m) c /\ (forall y, In (Some y) c -> y <= m) /\ z = Z.quot m scale
+  end.
+Proof. exact num_maximum. Qed.
+Print Assumptions C15_maximum_is_true_extreme.
+
+(* what "truncated toward zero" means for the fixed-point number z / scale *)
+Theorem C15_truncation_toward_zero :
+  forall scale z, 0 < scale ->
+  Z.abs (trunc_z scale z) * scale <= Z.abs z < (Z.abs (trunc_z scale z) + 1) * scale /\
+  (0 <= z -> 0 <= trunc_z scale z) /\ (z <= 0 -> trunc_z scale z <= 0).
+Proof. exact trunc_toward_zero. Qed.
+Print Assumptions C15_truncation_toward_zero.
+
+(* Histogram counts sum to the number of non-null values - given that numpy.histogram returns
+   non-negative counts that sum to the sample size (the oracle hypothesis). *)
+Theorem C15_histogram_mass :
+  forall E scale hash (np_hist : list Z -> list (E * Z)) wo c,
+  (forall d, Forall (fun b => 0 <= snd b) (np_hist d)) ->
+  (forall d, sumz (map snd (np_hist d)) = zlen d) ->
+  sumz (map snd (p_histogram (profile_num scale hash np_hist wo c))) = zlen c - zlen (filter is_none c).
+Proof. exact num_histogram_mass. Qed.
+Print Assumptions C15_histogram_mass.
+
+(* Most frequent values, numbers and instants: the listed values are distinct values of the
+   column, each with its exact number of occurrences; no unlisted value of the column occurs
+   more often than a listed one; min(MOST_FREQUENT_VALUE_SIZE, distinct values) are listed. *)
+Theorem C15_frequent_values_numeric :
+  forall E scale hash (np_hist : list Z -> list (E * Z)) wo c,
+  let d := nonnull c in
+  let m := p_mfv (profile_num scale hash np_hist wo c) in
+  NoDup (map fst m) /\
+  (forall v k, In (v, k) m -> k = occ Z.eqb v d /\ In (Some v) c) /\
+  (forall v, In (Some v) c -> ~ In v (map fst m) -> forall w k, In (w, k) m -> occ Z.eqb v d <= k) /\
+  length m = Nat.min MOST_FREQUENT_VALUE_SIZE (length (distinct Z.eqb d)).
+Proof. exact num_mfv. Qed.
+Print Assumptions C15_frequent_values_numeric.
+
+(* Text: the same, for columns whose values have at most SIXTY_FOUR_BYTES (64) characters. *)
+Theorem C15_frequent_values_text_partial :
+  forall E hash c,
+  Forall (fun s => (length s <= SIXTY_FOUR_BYTES)%nat) (nonnull c) ->
+  let d := nonnull c in
+  let m := p_mfv (@profile_text E hash c) in
+  NoDup (map fst m) /\
+  (forall v k, In (v, k) m -> k = occ text_eqb v d /\ In (Some v) c) /\
+  (forall v, In (Some v) c -> ~ In v (map fst m) -> forall w k, In (w, k) m -> occ text_eqb v d <= k) /\
+  length m = Nat.min MOST_FREQUENT_VALUE_SIZE (length (distinct text_eqb d)).
+Proof. exact text_mfv_short. Qed.
+Print Assumptions C15_frequent_values_text_partial.
+(* Full statement (no length guard): refuted, finding F-C15-9.  What holds for every text column
+   is the statement about the values cut to 64 characters: *)
+Theorem C15_frequent_values_text_clipped :
+  forall E hash c,
+  let d := map clip (nonnull c) in
+  let m := p_mfv (@profile_text E hash c) in
+  NoDup (map fst m) /\
+  (forall v k, In (v, k) m -> k = occ text_eqb v d /\ In v d) /\
+  (forall v, In v d -> ~ In v (map fst m) -> forall w k, In (w, k) m -> occ text_eqb v d <= k) /\
+  length m = Nat.min MOST_FREQUENT_VALUE_SIZE (length (distinct text_eqb d)).
+Proof. exact text_mfv. Qed.
+Print Assumptions C15_frequent_values_text_clipped.
+
+(* F-C15-9: two different 65-character values are listed as one 64-character value that is not in
+   the column, with a count that is not its number of occurrences, and the transition between
+   them is not counted. *)
+Theorem C15_frequent_values_text_refuted :
+  exists c : list (option (list N)),
+    let p := @profile_text N (fun _ => 0%N) c in
+    (exists v k, In (v, k) (p_mfv p) /\ ~ In (Some v) c /\ k <> occ text_eqb v (nonnull c)) /\
+    (match nonnull c with x :: xs => p_transitions p <> trans_count text_eqb x xs | [] => False end).
+Proof. exact text_mfv_long_refuted. Qed.
+Print Assumptions C15_frequent_values_text_refuted.
+
+(* Distinct values: [distinct] lists every value of the column exactly once, and below the
+   sketch size the estimate is their number - whatever the hash function is. *)
+Theorem C15_distinct_exact_numeric :
+  forall E scale hash (np_hist : list Z -> list (E * Z)) wo c,
+  (NoDup (distinct Z.eqb (nonnull c)) /\ forall v, In v (distinct Z.eqb (nonnull c)) <-> In (Some v) c) /\
+  ((length (distinct Z.eqb (nonnull c)) < KVM_SIZE)%nat ->
+   estimate_cardinality (profile_num scale hash np_hist wo c) = Some (zlen (distinct Z.eqb (nonnull c)))).
+Proof.
+  intros E scale hash np_hist wo c. split.
+  - exact (num_distinct_spec c).
+  - exact (num_estimate E scale hash np_hist wo c).
+Qed.
+Print Assumptions C15_distinct_exact_numeric.
+
+Theorem C15_distinct_exact_text :
+  forall E hash c,
+  (NoDup (distinct text_eqb (nonnull c)) /\ forall v, In v (distinct text_eqb (nonnull c)) <-> In (Some v) c) /\
+  ((length (distinct text_eqb (nonnull c)) < KVM_SIZE)%nat ->
+   estimate_cardinality (@profile_text E hash c) = Some (zlen (distinct text_eqb (nonnull c)))).
+Proof.
+  intros E hash c. split.
+  - exact (text_distinct_spec c).
+  - exact (text_estimate E hash c).
+Qed.
+Print Assumptions C15_distinct_exact_text.
+
+(* Order and transitions, numeric columns: transitions = adjacent non-null pairs that differ;
+   order = None when there is none, 1 when the data never falls, -1 when it never rises, else 0. *)
+Theorem C15_order_transitions_numeric :
+  forall E scale hash (np_hist : list Z -> list (E * Z)) c,
+  let p := profile_num scale hash np_hist true c in
+  match nonnull c with
+  | [] => p_order p = None /\ p_transitions p = 0
+  | x :: xs => p_order p = order_spec Z.leb x xs /\ p_transitions p = trans_count Z.eqb x xs
+  end.
+Proof. exact num_order_transitions. Qed.
+Print Assumptions C15_order_transitions_numeric.
+
+(* Text: the same on the values cut to 64 characters (the values themselves when none is longer). *)
+Theorem C15_order_transitions_text :
+  forall E hash c,
+  let p := @profile_text E hash c in
+  match map clip (nonnull c) with
+  | [] => p_order p = None /\ p_transitions p = 0
+  | x :: xs => p_order p = order_spec lex_leb x xs /\ p_transitions p = trans_count text_eqb x xs
+  end.
+Proof. exact text_order_transitions. Qed.
+Print Assumptions C15_order_transitions_text.
+
+(* The order / transition loop equals its specification over any totally ordered value type. *)
+Theorem C15_order_loop_generic :
+  forall (A : Type) (leb eqb : A -> A -> bool), total_order leb eqb ->
+  forall x xs, order_transitions leb eqb x xs = (order_spec leb x xs, trans_count eqb x xs).
+Proof. exact order_transitions_spec. Qed.
+Print Assumptions C15_order_loop_generic.
+
+(* The text encoding.  On byte strings the 8-byte big-endian prefix encoding is monotone for the
+   byte order; UTF-8 carries the code point order (Python's str order) to the byte order; so
+   string_to_int64 is monotone - the fact that makes text minimum / maximum additive. *)
+Theorem C15_prefix_encoding_monotone :
+  forall a b : list N, bytes a -> bytes b -> lex_leb a b = true -> bytes_to_int64 a <= bytes_to_int64 b.
+Proof. exact bytes_to_int64_mono. Qed.
+Print Assumptions C15_prefix_encoding_monotone.
+
+Theorem C15_string_to_int64_monotone :
+  forall s t : list N, valid_text s -> valid_text t -> lex_leb s t = true -> string_to_int64 s <= string_to_int64 t.
+Proof. exact string_to_int64_mono. Qed.
+Print Assumptions C15_string_to_int64_monotone.
+
+(* Text minimum / maximum: the encoding of the least / greatest value (cut to 64 characters). *)
+Theorem C15_text_extremes :
+  forall E hash c,
+  match p_minimum (@profile_text E hash c) with
+  | None => forall o, In o c -> o = None
+  | Some z => exists m, In m (map clip (nonnull c)) /\
+                        (forall y, In y (map clip (nonnull c)) -> lex_leb m y = true) /\ z = string_to_int64 m
+  end /\
+  match p_maximum (@profile_text E hash c) with
+  | None => forall o, In o c -> o = None
+  | Some z => exists m, In m (map clip (nonnull c)) /\
+                        (forall y, In y (map clip (nonnull c)) -> lex_leb y m = true) /\ z = string_to_int64 m
+  end.
+Proof. intros E hash c. split; [exact (text_minimum E hash c)|exact (text_maximum E hash c)]. Qed.
+Print Assumptions C15_text_extremes.
+
+(* Additivity: for every way of splitting a column in two batches (either may be all-null or
+   empty), adding the batch profiles gives the count, missing, minimum and maximum of the profile
+   of the whole column. *)
+Theorem C15_additive_numeric :
+  forall E scale hash (np_hist : list Z -> list (E * Z)), 0 < scale -> forall hist_merge wo c1 c2,
+  quad (add Z.eqb E hist_merge (profile_num scale hash np_hist wo c1) (profile_num scale hash np_hist wo c2)) =
+  quad (profile_num scale hash np_hist wo (c1 ++ c2)).
+Proof. exact num_additive. Qed.
+Print Assumptions C15_additive_numeric.
+
+Theorem C15_additive_text :
+  forall E hash hist_merge c1 c2, valid_column c1 -> valid_column c2 ->
+  quad (add text_eqb E hist_merge (@profile_text E hash c1) (@profile_text E hash c2)) =
+  quad (@profile_text E hash (c1 ++ c2)).
+Proof. exact text_additive. Qed.
+Print Assumptions C15_additive_text.
+
+Theorem C15_additive_other :
+  (forall E eqb hist_merge c1 c2,
+     quad (add eqb E hist_merge (@profile_bool E c1) (@profile_bool E c2)) = quad (@profile_bool E (c1 ++ c2))) /\
+  (forall V E B eqb hist_merge (c1 c2 : list (option B)),
+     quad (add eqb E hist_merge (@profile_plain V E B c1) (@profile_plain V E B c2)) = quad (@profile_plain V E B (c1 ++ c2))) /\
+  (forall V E eqb hist_merge c1 c2,
+     quad (add eqb E hist_merge (@profile_default V E c1) (@profile_default V E c2)) = quad (@profile_default V E (c1 ++ c2))).
+Proof.
+  split; [|split]; intros.
+  - rewrite quad_add_spec. symmetry. apply profile_bool_additive.
+  - rewrite quad_add_spec. symmetry. apply profile_plain_additive.
+  - rewrite quad_add_spec. symmetry. apply profile_default_additive.
+Qed.
+Print Assumptions C15_additive_other.
+
+(* The generic form: any profiler built from profile_core over a totally ordered value type with
+   an encoding that is monotone on the values in the column. *)
+Theorem C15_additive_generic :
+  forall (A : Type) (leb eqb : A -> A -> bool) (enc : A -> Z) (hash : A -> N) (E : Type)
+         (np_hist : list A -> list (E * Z)) (good : A -> Prop),
+  total_order leb eqb ->
+  (forall a b, good a -> good b -> leb a b = true -> enc a <= enc b) ->
+  forall wh wo c1 c2 dk1 dk2 d1 d2, Forall good d1 -> Forall good d2 ->
+  quad (profile_core leb eqb enc hash E np_hist wh wo (c1 + c2) (dk1 ++ dk2) (d1 ++ d2)) =
+  quad_add (quad (profile_core leb eqb enc hash E np_hist wh wo c1 dk1 d1))
+           (quad (profile_core leb eqb enc hash E np_hist wh wo c2 dk2 d2)).
+Proof. exact core_quad_app. Qed.
+Print Assumptions C15_additive_generic.
+
+(* Batching in from_dataframe: a frame profiled in batches of BATCH_SIZE rows has the count,
+   missing, minimum and maximum of the column profiled at once (and a frame without rows has no
+   column profile). *)
+Theorem C15_batching_numeric :
+  forall E scale hash (np_hist : list Z -> list (E * Z)), 0 < scale -> forall hist_merge wo c,
+  0 < BATCH_SIZE ->
+  match profile_frame Z.eqb E hist_merge (profile_num scale hash np_hist wo) c with
+  | None => c = []
+  | Some p => c <> [] /\ quad p = quad (profile_num scale hash np_hist wo c)
+  end.
+Proof. exact num_batching. Qed.
+Print Assumptions C15_batching_numeric.
+
+(* Booleans: the two listed counts are exact and sum to the non-null count. *)
+Theorem C15_boolean_counts :
+  forall E (c : list (option bool)), nonnull c <> [] ->
+  p_mfv (@profile_bool E c) = [(true, occ Bool.eqb true (nonnull c)); (false, occ Bool.eqb false (nonnull c))] /\
+  occ Bool.eqb true (nonnull c) + occ Bool.eqb false (nonnull c) = zlen (nonnull c).
+Proof. intros E c H. split; [exact (profile_bool_mfv c H)|exact (occ_bool_total (nonnull c))]. Qed.
+Print Assumptions C15_boolean_counts.
+
+(* ---------- non-vacuity ---------- *)
+(* the premises are satisfiable: the regenerated constants are positive, Z and text are total
+   orders, a histogram oracle with the assumed behaviour exists *)
+Example C15_premises_satisfiable :
+  0 < BATCH_SIZE /\ total_order Z.leb Z.eqb /\ total_order lex_leb text_eqb /\
+  (let np_hist := fun d : list Z => match d with [] => [] | _ => [(0%N, zlen d)] end in
+   (forall d, Forall (fun b => 0 <= snd b) (np_hist d)) /\ (forall d, sumz (map snd (np_hist d)) = zlen d)).
+Proof.
+  split; [reflexivity|]. split; [exact Z_total_order|]. split; [exact text_total_order|].
+  cbn zeta. split; intros [|x d].
+  - constructor.
+  - constructor; [apply zlen_nonneg|constructor].
+  - reflexivity.
+  - cbn [map snd sumz fold_right]. apply Z.add_0_r.
+Qed.
+
+(* a concrete column: [1.5, null, -2.7, 1.5, 0] on the 10^-6 grid *)
+Example C15_example_numeric :
+  let p := profile_num 1000000 (fun z => Z.to_N (Z.abs z)) (fun d => [(0%N, zlen d)]) true
+                       [Some 1500000; None; Some (-2700000); Some 1500000; Some 0] in
+  quad p = (5, 1, Some (-2), Some 1) /\ p_mfv p = [(1500000, 2); (-2700000, 1); (0, 1)] /\
+  p_order p = Some 0 /\ p_transitions p = 3 /\ estimate_cardinality p = Some 3.
+Proof. vm_compute. repeat split. Qed.
+
+(* text: 'abc' < 'é' as strings and as encoded integers (F-C15-5 had them the other way round);
+   adding the profiles of ['é','zz','b'] and ['abc','a',''] gives the extremes of the whole *)
+Example C15_example_text :
+  let e := [233%N] in let abc := [97; 98; 99]%N in
+  lex_leb abc e = true /\ string_to_int64 abc < string_to_int64 e /\
+  let c1 := [Some e; Some [122; 122]%N; Some [98%N]] in
+  let c2 := [Some abc; Some [97%N]; Some []] in
+  let prof := @profile_text N (fun _ => 0%N) in
+  quad (add text_eqb N (fun a _ => a) (prof c1) (prof c2)) = quad (prof (c1 ++ c2)) /\
+  quad (prof (c1 ++ c2)) = (6, 0, Some 0, Some MAX_INT64).
+Proof. vm_compute. repeat split; discriminate || reflexivity. Qed.
+
+(* The sketch of a sum: when both batches have a non-null value and the hash function is
+   injective on the values of the frame, the estimate of profile(a) + profile(b) is exact below the
+   sketch size.  (Not part of the additivity the property states; the hypothesis on the batches
+   is needed: see C15_sum_sketch_left_null_refuted.) *)
+Theorem C15_distinct_exact_sum_numeric_partial :
+  forall E scale hash (np_hist : list Z -> list (E * Z)) hist_merge wo c1 c2,
+  nonnull c1 <> [] -> nonnull c2 <> [] ->
+  (forall a b, In (Some a) (c1 ++ c2) -> In (Some b) (c1 ++ c2) -> hash a = hash b -> a = b) ->
+  (length (distinct Z.eqb (nonnull (c1 ++ c2))) < KVM_SIZE)%nat ->
+  estimate_cardinality (add Z.eqb E hist_merge (profile_num scale hash np_hist wo c1) (profile_num scale hash np_hist wo c2))
+  = Some (zlen (distinct Z.eqb (nonnull (c1 ++ c2)))).
+Proof. exact num_sum_estimate. Qed.
+Print Assumptions C15_distinct_exact_sum_numeric_partial.
+
+Theorem C15_distinct_exact_sum_text_partial :
+  forall E hash hist_merge c1 c2,
+  nonnull c1 <> [] -> nonnull c2 <> [] ->
+  (forall a b, In (Some a) (c1 ++ c2) -> In (Some b) (c1 ++ c2) -> hash a = hash b -> a = b) ->
+  (length (distinct text_eqb (nonnull (c1 ++ c2))) < KVM_SIZE)%nat ->
+  estimate_cardinality (add text_eqb E hist_merge (@profile_text E hash c1) (@profile_text E hash c2))
+  = Some (zlen (distinct text_eqb (nonnull (c1 ++ c2)))).
+Proof. exact text_sum_estimate. Qed.
+Print Assumptions C15_distinct_exact_sum_text_partial.
+
+Theorem C15_sum_sketch_left_null_refuted :
+  exists c1 c2 : list (option Z),
+    estimate_cardinality (add Z.eqb N (fun a _ => a) (profile_num 1 Z.to_N (fun _ => []) true c1)
+                                                    (profile_num 1 Z.to_N (fun _ => []) true c2)) = Some 0 /\
+    zlen (distinct Z.eqb (nonnull (c1 ++ c2))) = 1.
+Proof. exact sum_estimate_left_null_refuted. Qed.
+Print Assumptions C15_sum_sketch_left_null_refuted.
